@@ -20,6 +20,7 @@ _PARSER = Parser(_LANG)
 FILLERS = [
     "", " ", "  ", "\t", "\n", "\n\n", "\n\n\n", "\n    ", " # c\n", "\n# c\n", " /* c */ ", "\n/* c */\n",
     " /** d */ ", " /* m\n   n */ ", "\n\n# é\n\n", "\n  # c\n  # d\n",
+    " # c\n\n", "\n# c\n\n# d\n", "\r\n", "\r\n\r\n", "\n\x0c\n",
 ]
 
 ATOMS = ["a", "1", '"s"', "./p", "true", "null", "1.5", "x.y", "[ ]", "{ }"]
